@@ -143,10 +143,15 @@ def run(ctx):
             info = _sub(norm(v.right)) if ok else None
             ok = ok and info is not None and info[3] == -1 and info[0] == cw
         ctx.ob("H1", F, f"SECDED.compute_syndrome@{cls}", "parity chain XORs codeword[c - 1]", ok, "" if ok else f"{[a.v for a in xr]}", xr[0].line if xr else 0)
-        ok = info is not None and info[1] == f"compute_cover_positions(len({cw}), 2 ** i)"
+        # the index of the syndrome bit: whatever the loop over the syndrome positions calls it
+        iv = "i"
+        if xr and xr[0].loops:
+            iv = xr[0].loops[0][0].strip("()").split(",")[0].strip()
+        ok = info is not None and info[1] == f"compute_cover_positions(len({cw}), 2 ** {iv})"
         ctx.ob("H2", F, f"SECDED.compute_syndrome@{cls}", "cover set = compute_cover_positions(len(codeword), 2**i)", ok, "" if ok else f"{info}")
-        sy = [a for a in fx.find(domain="comb") if a.t == "syndrome[i]"]
-        ok = len(sy) == 1 and sy[0].v == "new_pn" and any(it == f"enumerate(compute_syndrome_positions(len({cw})))" for _, it in sy[0].loops)
+        sy = [a for a in fx.find(domain="comb") if a.t == f"syndrome[{iv}]"]
+        ok = len(sy) == 1 and sy[0].v == "new_pn" and any(it in (f"enumerate(compute_syndrome_positions(len({cw})))",
+                                                                 f"range(len(compute_syndrome_positions(len({cw}))))") for _, it in sy[0].loops)
         ctx.ob("H2", F, f"SECDED.compute_syndrome@{cls}", "syndrome bit i = parity of cover set i (over the syndrome positions)", ok,
                "" if ok else f"{[(a.t, a.v, a.loops) for a in sy]}")
     ps = [a for a in enc.find(domain="comb") if a.t.startswith("codeword_d_p[")]
@@ -179,7 +184,13 @@ def run(ctx):
     ctx.ob("H2", F, "ECCDecoder", "code word = input without bit 0", ok, "" if ok else f"{[a.v for a in cw]}")
     for fx, cls, word in ((enc, "ECCEncoder", "codeword_d_p"), (dec, "ECCDecoder", "self.i")):
         pa = fx.find(domain="comb", target="parity")
-        ok = len(pa) == 1 and pa[0].v == f"Reduce('XOR', [{word}[i] for i in range(len({word}))])"
+        ok = len(pa) == 1 and isinstance(pa[0].value, ast.Call) and norm(pa[0].value.func) == "Reduce" and len(pa[0].value.args) == 2 and \
+            norm(pa[0].value.args[0]) == "'XOR'"
+        if ok:
+            ew = q.elementwise(pa[0].value.args[1])
+            se = q.star_elements(pa[0].value.args[1])
+            ok = ew == (f"{word}[@]", f"range(len({word}))") or \
+                (bool(se) and len(se) == 1 and se[0][2] == f"range(len({word}))" and norm(se[0][0]) == f"{word}[{se[0][1]}]")
         ctx.ob("H2", F, cls, f"parity = XOR over every bit of {word}", ok, "" if ok else f"{[a.v for a in pa]}")
 
     # ---- H3
